@@ -102,7 +102,7 @@ theorem fireSwitch_J {s0 : St} (hj : J s0) : J (fireSwitch s0) := by
     · left; exact h
     · exact absurd ⟨hst, hlt⟩ (hguard c hc)
 
-theorem J_step {s : St} (h : Inv s) (hj : J s) (op : Op) : J (step s op).1 := by
+theorem J_step {s : St} (h : Inv s) (hj : J s) (op : Op) : J (stepRaw s op).1 := by
   cases step_shape h op with
   | idle he hc _ _ hf =>
     intro e hfe hav
@@ -118,15 +118,15 @@ theorem J_step {s : St} (h : Inv s) (hj : J s) (op : Op) : J (step s op).1 := by
       rw [he, hc]
       exact hj e hfe hav
 
-theorem J_init {r d : Int} {l : List String} {s : St} (hr : 0 ≤ r) (hd : 0 ≤ d) (h : init r d l = some s) : J s := by
+theorem J_init {r d : Int} {l : List String} {s : St} (hr : 0 ≤ r) (hd : 0 ≤ d) (h : initRaw r d l = some s) : J s := by
   intro e hfe hav
   -- nothing is available right after construction
   exfalso
   have hi := inv_init hr hd h
   cases l with
-  | nil => simp [init] at h
+  | nil => simp [initRaw] at h
   | cons first rest =>
-    simp only [init, Option.some.injEq] at h
+    simp only [initRaw, Option.some.injEq] at h
     subst h
     let s0 : St := { r := r, d := d, eps := [], orphans := [], current := first, future := "",
                      timers := [], now := 0, nextObj := 0, nextTid := 0 }
@@ -136,17 +136,17 @@ theorem J_init {r d : Int} {l : List String} {s : St} (hr : 0 ≤ r) (hd : 0 ≤
 
 theorem reach_J {s : St} (h : Reach s) : J s := by
   induction h with
-  | init hr hd hi => exact J_init hr hd hi
-  | step op hr ih => exact J_step (reach_inv hr) ih op
+  | initRaw hr hd hi => exact J_init hr hd hi
+  | stepRaw op hr ih => exact J_step (reach_inv hr) ih op
 
 /-- **C13.3** whenever an operation changes `current` while some endpoint is available, the new
     current endpoint is the highest-priority available one — also when the change is made by a
     delayed-switch timer armed any number of reports, reorders and recoveries earlier -/
-theorem c13_switch_top_holds {s : St} (h : Reach s) (op : Op) : c13_switch_top s (step s op).1 = true := by
+theorem c13_switch_top_holds {s : St} (h : Reach s) (op : Op) : c13_switch_top s (stepRaw s op).1 = true := by
   have hi := reach_inv h
   have hj := reach_J h
   unfold c13_switch_top
-  by_cases hch : (s.current != (step s op).1.current && anyAvail (step s op).1.eps) = true
+  by_cases hch : (s.current != (stepRaw s op).1.current && anyAvail (stepRaw s op).1.eps) = true
   · simp only [hch, ↓reduceIte]
     simp only [Bool.and_eq_true, bne_iff_ne, ne_eq] at hch
     obtain ⟨hne, hav⟩ := hch
@@ -295,7 +295,7 @@ theorem nextCur_idem {eps : List Ep} (hne : eps ≠ [])
 /-- with `d = 0`, `current` is always a fixed point of the rule -/
 def K (s : St) : Prop := s.d = 0 → nextCur s.eps s.current 0 = s.current
 
-theorem K_step {s : St} (h : Inv s) (hj : J s) (hk : K s) (op : Op) : K (step s op).1 := by
+theorem K_step {s : St} (h : Inv s) (hj : J s) (hk : K s) (op : Op) : K (stepRaw s op).1 := by
   intro hd0
   cases step_shape h op with
   | idle he hc _ hd _ => rw [he, hc]; exact hk (by rw [← hd]; exact hd0)
@@ -326,7 +326,7 @@ theorem K_step {s : St} (h : Inv s) (hj : J s) (hk : K s) (op : Op) : K (step s 
         · simp
       · exact absurd ⟨hst, hlt⟩ (hguard c hcf)
 
-theorem K_init {r d : Int} {l : List String} {s : St} (hr : 0 ≤ r) (hd : 0 ≤ d) (h : init r d l = some s) : K s := by
+theorem K_init {r d : Int} {l : List String} {s : St} (hr : 0 ≤ r) (hd : 0 ≤ d) (h : initRaw r d l = some s) : K s := by
   intro _
   have hi := inv_init hr hd h
   obtain ⟨c, hc⟩ := hi.curMem
@@ -334,9 +334,9 @@ theorem K_init {r d : Int} {l : List String} {s : St} (hr : 0 ≤ r) (hd : 0 ≤
   have hna : topAvail s.eps = none := by
     apply topAvail_eq_none.mpr
     cases l with
-    | nil => simp [init] at h
+    | nil => simp [initRaw] at h
     | cons first rest =>
-      simp only [init, Option.some.injEq] at h
+      simp only [initRaw, Option.some.injEq] at h
       subst h
       let s0 : St := { r := r, d := d, eps := [], orphans := [], current := first, future := "",
                        timers := [], now := 0, nextObj := 0, nextTid := 0 }
@@ -348,17 +348,17 @@ theorem K_init {r d : Int} {l : List String} {s : St} (hr : 0 ≤ r) (hd : 0 ≤
 
 theorem reach_K {s : St} (h : Reach s) : K s := by
   induction h with
-  | init hr hd hi => exact K_init hr hd hi
-  | step op hr ih => exact K_step (reach_inv hr) (reach_J hr) ih op
+  | initRaw hr hd hi => exact K_init hr hd hi
+  | stepRaw op hr ih => exact K_step (reach_inv hr) (reach_J hr) ih op
 
 /-- **C13.5** with no switching delay, after every operation `current` is exactly: the recovering
     current endpoint if no higher-priority endpoint is available, otherwise the highest-priority
     available endpoint, otherwise unchanged (the list's first endpoint if it was removed) -/
-theorem c13_d0_holds {s : St} (h : Reach s) (op : Op) : c13_d0 s (step s op).1 = true := by
+theorem c13_d0_holds {s : St} (h : Reach s) (op : Op) : c13_d0 s (stepRaw s op).1 = true := by
   have hi := reach_inv h
   have hk := reach_K h
   have hpost := inv_step hi op
-  have hkpost := reach_K (Reach.step op h)
+  have hkpost := reach_K (Reach.stepRaw op h)
   unfold c13_d0
   by_cases hd0 : s.d = 0
   · have hb : (s.d == 0) = true := by simpa using hd0
@@ -468,7 +468,7 @@ theorem muc_recovery_timers (s : St) :
 /-- **C14.3** a repeated "unavailable" report — for an endpoint that is not available, or an unknown
     one — changes neither the endpoint table, nor `current`, nor any pending recovery timer: the
     recovery window is not extended -/
-theorem c14_repeat_holds {s : St} (h : Reach s) (op : Op) : c14_repeat s op (step s op).1 = true := by
+theorem c14_repeat_holds {s : St} (h : Reach s) (op : Op) : c14_repeat s op (stepRaw s op).1 = true := by
   unfold c14_repeat
   cases op with
   | setAvail e a =>
@@ -478,13 +478,13 @@ theorem c14_repeat_holds {s : St} (h : Reach s) (op : Op) : c14_repeat s op (ste
       simp only
       -- in the no-op case the call reduces to `maybeUpdateCurrent s`
       have hmain : setEndpointAvailability s e false = s →
-          (List.map epView s.eps == List.map epView (step s (.setAvail e false)).1.eps &&
-            (step s (.setAvail e false)).1.current == s.current &&
+          (List.map epView s.eps == List.map epView (stepRaw s (.setAvail e false)).1.eps &&
+            (stepRaw s (.setAvail e false)).1.current == s.current &&
             List.filter isRecoveryTimer (liveTimers s) ==
-              List.filter isRecoveryTimer (liveTimers (step s (.setAvail e false)).1)) = true := by
+              List.filter isRecoveryTimer (liveTimers (stepRaw s (.setAvail e false)).1)) = true := by
         intro hsea
-        have hpost : (step s (.setAvail e false)).1 = maybeUpdateCurrent s := by
-          simp only [step, opSetAvail]; rw [hsea]
+        have hpost : (stepRaw s (.setAvail e false)).1 = maybeUpdateCurrent s := by
+          simp only [stepRaw, opSetAvail]; rw [hsea]
         rw [hpost]
         have hf := muc_fields s
         rw [hf.1, muc_current, reach_stable h, muc_recovery_timers]
